@@ -32,7 +32,12 @@ class _Plain:
         self.fn = fn
 
     def __call__(self, part):
-        return plain(self.fn(part))
+        try:
+            return plain(self.fn(part))
+        except Exception:
+            raise
+        except BaseException as e:      # e.g. asyncio.CancelledError: a worker that dies with a BaseException hangs Pool.map
+            raise RuntimeError("worker aborted with %r" % (e,))
 
 
 def pmap(fn, items, nproc=None, chunk=None):
